@@ -35,6 +35,8 @@ THEOREMS = [
     "c08_registration_visible_after_serving",
     "c08_initialize_result",
     "c08_content_refines_dispatch",
+    "c08_response_independent_of_history",
+    "c08_servers_independent",
 ]
 RULE = (
     "hardening sweep: falsy values (ids 0 / 0.0 / '', tool name '' and uri '' registered, falsy tool/resource/custom results, falsy "
@@ -60,7 +62,7 @@ TRUSTED = ["Pydantic validation of the envelope classes (a null id is rejected) 
 ASSUMPTIONS = [
     "a custom method handler that returns a well-formed pair is responsible for what it puts in it: (None, sid) on a request is forwarded as no response (pinned by tests/mcp/server/test_protocol_handler.py::test_handler_returning_none); not demanded, not generated as a violation",
     "method '' (empty string) with an id must be answered with an error carrying the id; the code is not fixed by the property (the code answers -32600)",
-    "a tools/call or resources/read whose name/uri is missing or not a string must be answered with an error carrying the id; only a STRING that names no registered tool/resource is 'an unknown tool or resource' (-32602 demanded)",
+    "a tools/call or resources/read whose name/uri is missing, null, a number or a boolean names nothing registered: it is 'an unknown tool or resource' and -32602 is demanded, with an empty and with a non-empty registry; for a name that is a list or an object only an error carrying the id is demanded (the code answers -32603: such a value cannot even be looked up)",
     "handlers raising BaseException subclasses outside Exception (CancelledError, SystemExit) are outside 'a handler raises'",
     "NOT DEMANDED (finding reported, candidate repair fixes/C08-unprintable-exception-text.diff): a handler raising an exception object whose own text cannot be produced (__str__ raises or returns a non-string) — the dispatcher's except block raises while formatting it (register_method handlers; tool/resource handlers only when the replacement exception is unprintable too). Generated, observed and shown in the distribution; demanded with VERIF_C08_DEMAND_UNPRINTABLE=1",
     "a custom handler's session id (second element) is not an observable of this property: for a notification only 'no response' is demanded",
@@ -113,6 +115,9 @@ ODD_METHODS = ["", " ", "PING", "ping ", "tools/call/", "tools", "rpc.discover",
 GENERIC_PARAMS = ["<absent>", None, {}, {"x": 1, "_meta": {"progressToken": 0}}, {"requestId": 7, "reason": "user"},
                   {"progressToken": "tok", "progress": 1, "requestId": None},
                   {"requestId": 0, "progressToken": "", "name": "", "uri": "", "arguments": {}, "clientInfo": {}, "protocolVersion": ""}]
+IDS = IDS + H.SYNTAX_TEXT[:6]
+ODD_METHODS = ODD_METHODS + H.SYNTAX_TEXT
+TYPE_CLASSES = [None, True, False, 0, 7, -1, 1.5, 0.0, "", "x", [], ["x"], {}, {"x": 1}, "<absent>"]
 CORE_METHODS = H.BUILTIN + ["notifications/cancelled", "notifications/progress", "custom/answers", "custom/raises", "nosuch"]
 
 ARGUMENTS = ["<absent>", {}, {"text": "x"}, {"text": None}, {"text": [1, {"a": None}]}, {"other": 1}, {"text": "x", "extra": 1},
@@ -255,6 +260,18 @@ def directed(budget):
     ids = ["<absent>", 0, "", "r-1"] if quick else IDS
     args = ARGUMENTS_Q if quick else ARGUMENTS
     real = set(H.TOOLS)
+    # every JSON type class for name / uri / arguments, with a non-empty, an overridden and an EMPTY registry
+    for variant in (None, "empty", "overrides"):
+        for i in ("<absent>", 0, "", "t"):
+            for v in TYPE_CLASSES + ["echo", "file:///ok"]:
+                for a in ("<absent>", {}, None, [], 0, True, "s", 1.5):
+                    p = {} if v == "<absent>" else {"name": v, "uri": v}
+                    if a != "<absent>":
+                        p["arguments"] = a
+                    out.append(mk("tools/call", i, p, server=variant))
+                out.append(mk("resources/read", i, {} if v == "<absent>" else {"uri": v}, server=variant))
+            for me in ("tools/list", "resources/list", "ping", "initialize", "nosuch", "notifications/cancelled"):
+                out.append(mk(me, i, {}, server=variant))
     for i in ids:
         for n in tool_names():
             full = isinstance(n, str) and n in real and not n.startswith("raise/")
@@ -272,6 +289,13 @@ def directed(budget):
             out.append(mk("resources/read", i, {"uri": u, "name": "echo"} if u != "<absent>" else {"name": "echo"}, "parse"))
         for p in INIT_PARAMS:
             out.append(mk("initialize", i, p))
+    # dimensions crossed with EVERYTHING above (not only with the happy path): a host that configured logging at DEBUG
+    # (every third case; the log messages are then really formatted), and a session id argument of every kind
+    for k, c in enumerate(out):
+        if k % 3 == 1:
+            c["debug"] = True
+        if k % 4 == 2 and "sid" not in c:
+            c["sid"] = SIDS[(k // 4) % len(SIDS)]
     return out
 
 
@@ -310,15 +334,20 @@ def seeded(rng, meths):
         p = {}
         names, us = tool_names(), uris()
         if rng.random() < 0.7:
-            p["name"] = rng.choice(names[:-1]) if rng.random() < 0.8 else rand_json(rng)
+            p["name"] = rng.choice(names[:-1]) if rng.random() < 0.7 else rng.choice([rand_json(rng), rng.choice(TYPE_CLASSES[:-1])])
         if rng.random() < 0.5:
             p["arguments"] = rng.choice(ARGUMENTS[1:]) if rng.random() < 0.7 else rand_json(rng)
         if rng.random() < 0.5:
-            p["uri"] = rng.choice(us[:-1]) if rng.random() < 0.8 else rand_json(rng)
+            p["uri"] = rng.choice(us[:-1]) if rng.random() < 0.7 else rng.choice([rand_json(rng), rng.choice(TYPE_CLASSES[:-1])])
         if rng.random() < 0.3:
             p[rng.choice(["x", "_meta", "clientInfo", "protocolVersion", "requestId", "progressToken"])] = rand_json(rng)
     kw = {}
-    if rng.random() < 0.15:
+    if rng.random() < 0.3:
+        kw["debug"] = True
+    r = rng.random()
+    if r < 0.08:
+        kw["server"] = "empty"
+    elif r < 0.23:
         kw["server"] = "overrides"
     if rng.random() < 0.2:
         kw["sid"] = rng.choice(SIDS)
@@ -340,6 +369,23 @@ def sequences(rng, n):
         [("resources/read", 1, {"uri": "file:///raise/unprintable"}), ("resources/read", 2, {"uri": "file:///ok"}), ("resources/list", 3, None)],
     ]
     out = []
+    # the SAME failure 2, 3, 4 times in a row, then a success; a failure between two successes; the same bad value twice
+    good = ("ping", 9, "<absent>")
+    failures = [("nosuch", 1, {}), ("custom/raises", 1, {}), ("raise/empty", 1, {}), ("raise/unprintable", 1, {}), ("custom/none", 1, {}),
+                ("raise/builtin/KeyError", "<absent>", {}), ("notifications/cancelled", "<absent>", {}),
+                ("tools/call", 1, {"name": "raise/builtin/RecursionError"}), ("tools/call", 1, {"name": None}), ("tools/call", 1, {"name": ["x"]}),
+                ("tools/call", 1, {"name": "echo", "arguments": None}), ("tools/call", "<absent>", {"name": "boom"}),
+                ("resources/read", 1, {"uri": 7}), ("resources/read", 1, {"uri": "file:///boom"}), ("", 1, {}),
+                ("initialize", "<absent>", {"protocolVersion": []})]
+    for f in failures:
+        for k in (2, 3, 4):
+            for variant in (None, "empty"):
+                c = {"seq": [dict(mk(*f)) for _ in range(k)] + [dict(mk(*good)), dict(mk(*f)), dict(mk(*good))]}
+                if variant:
+                    c["server"] = variant
+                if k == 3:
+                    c["debug"] = True
+                out.append(c)
     for f in fixed:
         for reuse in (False, True):
             for sid in (None, "$last", ""):
@@ -411,30 +457,37 @@ def expectation(case):
                 "why": "built-in method"}
     if me == "tools/call":
         name = params.get("name") if isinstance(params, dict) else None
+        tools = H.tools_table(variant)
         if isinstance(name, str):
-            if name not in H.TOOLS:
+            if name not in tools:
                 return {"class": "request", "kind": "error", "code": -32602, "why": "unknown tool"}
-            beh = H.TOOLS[name][1]
+            beh = tools[name][1]
             if beh == "raises":
                 return {"class": "request", "kind": "error", "code": -32603, "why": "tool handler raises",
                         "shape": H.raise_shape("tool", name), "target": "tool"}
             if beh == "returns" and H.args_ok(params):
                 return {"class": "request", "kind": "result", "code": None, "why": "tool handler returns"}
             return {"class": "request", "kind": None, "code": None, "why": "tool returns nonsense / arguments do not fit"}
-        return {"class": "request", "kind": "error", "code": None, "why": "tool name missing or not a string"}
+        if isinstance(name, (list, dict)):
+            return {"class": "request", "kind": "error", "code": None, "why": "tool name is a list or an object"}
+        # missing, null, a number or a boolean names no registered tool: it is an unknown tool
+        return {"class": "request", "kind": "error", "code": -32602, "why": "tool name missing or not a string"}
     if me == "resources/read":
         uri = params.get("uri") if isinstance(params, dict) else None
+        resources = H.resources_table(variant)
         if isinstance(uri, str):
-            if uri not in H.RESOURCES:
+            if uri not in resources:
                 return {"class": "request", "kind": "error", "code": -32602, "why": "unknown resource"}
-            beh = H.RESOURCES[uri][1]
+            beh = resources[uri][1]
             if beh == "raises":
                 return {"class": "request", "kind": "error", "code": -32603, "why": "resource handler raises",
                         "shape": H.raise_shape("resource", uri), "target": "resource"}
             if beh == "returns":
                 return {"class": "request", "kind": "result", "code": None, "why": "resource handler returns"}
             return {"class": "request", "kind": None, "code": None, "why": "resource handler returns nonsense"}
-        return {"class": "request", "kind": "error", "code": None, "why": "uri missing or not a string"}
+        if isinstance(uri, (list, dict)):
+            return {"class": "request", "kind": "error", "code": None, "why": "uri is a list or an object"}
+        return {"class": "request", "kind": "error", "code": -32602, "why": "uri missing or not a string"}
     return {"class": "request", "kind": None, "code": None, "why": "registered"}
 
 
@@ -551,6 +604,45 @@ class Dispatch(Suite):
             yield {"msg": dict(msg, method=me[: len(me) // 2]), "env": env}
 
 
+def concurrent(rng, n):
+    """2-4 messages dispatched AT ONCE (asyncio.gather) — on one server, or alternately on two or three servers alive in the
+    same process — with handlers that really suspend, so that the dispatches overlap; EQUAL ids and equal names included.
+    Every message is judged alone: what else is in flight, and on which other instance, must not matter."""
+    slow = [("answers/suspends", {}), ("raises/after-suspension", {}), ("tools/call", {"name": "ret/suspends"}),
+            ("resources/read", {"uri": "file:///suspends"}), ("tools/call", {"name": "ret/suspends", "arguments": {"text": "x"}})]
+    fast = [("ping", "<absent>"), ("nosuch", {}), ("custom/raises", {}), ("tools/call", {"name": "boom"}), ("tools/call", {"name": None}),
+            ("notifications/cancelled", {"requestId": 1}), ("initialize", {}), ("custom/none", {}), ("tools/list", {})]
+    out = []
+    for a in slow:
+        for b in slow + fast[:5]:
+            for ids in ((1, 1), ("r", "r"), (0, 0), (1, 2), (1, "1"), (1, "<absent>"), ("<absent>", "<absent>")):
+                out.append({"conc": [dict(mk(a[0], ids[0], a[1])), dict(mk(b[0], ids[1], b[1]))]})
+        out.append({"conc": [dict(mk(a[0], 5, a[1])) for _ in range(4)], "debug": True})
+        out.append({"conc": [dict(mk(a[0], 5, a[1]), on=k) for k in range(3)], "servers": [None, None, "overrides"]})
+        out.append({"conc": [dict(mk(a[0], 5, a[1]), on=k % 2) for k in range(4)], "servers": [None, "empty"]})
+    meths = all_methods(with_harvest=False)
+    for _ in range(n):
+        k = rng.randint(2, 4)
+        steps = []
+        for _ in range(k):
+            if rng.random() < 0.6:
+                me, p = rng.choice(slow)
+                c = mk(me, rng.choice([1, 1, 1, 2, "r", 0, "<absent>"]), p)
+            else:
+                c = seeded(rng, meths)
+                c.pop("server", None)
+                c.pop("debug", None)
+                if c.get("env") == "list":
+                    c["env"] = "legacy"
+            c["on"] = rng.randrange(3)
+            steps.append(c)
+        case = {"conc": steps, "servers": rng.choice([[None], [None, None], [None, "overrides"], [None, "empty", None]])}
+        if rng.random() < 0.3:
+            case["debug"] = True
+        out.append(case)
+    return out
+
+
 class Sequences(Suite):
     """several messages on one fresh server (reuse of envelopes, requests after failures, second initialize, id twins);
     every step is judged by the single-message oracle — dispatch must not depend on what came before"""
@@ -563,8 +655,7 @@ class Sequences(Suite):
     def impl_batch(self, cases):
         return [H.run_case(c) for c in cases]
 
-    @staticmethod
-    def _step_case(case, st):
+    def _step_case(self, case, st):
         return {"msg": st["msg"], "env": st.get("env", "legacy"), "server": case.get("server"), "sid": st.get("sid")}
 
     def oracle(self, case, o):
@@ -796,5 +887,43 @@ def extra(ctx, tier):
         del CONTENT_NOTES[:]
 
 
+class Concurrent(Sequences):
+    """overlapping dispatches on one or several live server instances; judged message by message"""
+    name = "concurrent"
+
+    def cases(self, ctx, budget):
+        return concurrent(ctx.sub_rng("c08conc", budget), 400 if budget == "quick" else 8000)
+
+    @staticmethod
+    def _steps(case):
+        return case["conc"]
+
+    def _step_case(self, case, st):
+        servers = case.get("servers", [case.get("server")])
+        return {"msg": st["msg"], "env": st.get("env", "legacy"), "server": servers[st.get("on", 0) % len(servers)], "sid": st.get("sid")}
+
+    def oracle(self, case, o):
+        for n, (st, so) in enumerate(zip(case["conc"], o["steps"])):
+            v = check(self._step_case(case, st), so)
+            if v is not None:
+                return (v[0], f"message {n + 1} of {len(case['conc'])} dispatched at once: {v[1]}", v[2])
+        return None
+
+    def kind(self, case, o):
+        ids = [st["msg"].get("id", "<absent>") for st in case["conc"]]
+        return "concurrent/%d%s/%dservers" % (len(case["conc"]), "/equal-ids" if len(set(map(repr, ids))) < len(ids) else "",
+                                              len(case.get("servers", [None])))
+
+    def shrink_candidates(self, case):
+        seq = case["conc"]
+        for i in range(len(seq)):
+            if len(seq) > 1:
+                yield dict(case, conc=seq[:i] + seq[i + 1:])
+        if case.get("debug"):
+            yield {k: v for k, v in case.items() if k != "debug"}
+        if len(case.get("servers", [None])) > 1:
+            yield dict(case, servers=[case["servers"][0]], conc=[{k: v for k, v in st.items() if k != "on"} for st in seq])
+
+
 def suites():
-    return [Dispatch(), Sequences(), Content()]
+    return [Dispatch(), Sequences(), Concurrent(), Content()]
